@@ -109,6 +109,26 @@ def InitOrderOnce (modules : List Name) (log : List Ev) : Prop :=
 instance (ms : List Name) (log : List Ev) : Decidable (InitOrderOnce ms log) := by
   unfold InitOrderOnce; infer_instance
 
+/-- the module a lifecycle hook event belongs to -/
+def hookOf : Ev → Option Name
+  | .early m => some m
+  | .init m => some m
+  | .start m => some m
+  | _ => none
+
+/-- "each module is early-initialised, then initialised, then started, exactly once and in that order" — the part of
+the clause that is demanded of **every** life of a node, also of one that is rejected (failing early / late
+initialisation, bad attachments, cycles): no hook of any module runs a second time, however often the module is reached
+(through the attachments of several users, the creation loop, the description of the exported modules), `earlyInit`
+comes first and `initModule` is never entered without it. -/
+def HooksAtMostOnce (log : List Ev) : Prop :=
+  ∀ e ∈ log, ∀ m ∈ (hookOf e).toList,
+    log.count (.early m) ≤ 1 ∧ log.count (.init m) ≤ 1 ∧ log.count (.start m) ≤ 1 ∧
+    (Ev.init m ∈ log → Ev.early m ∈ log) ∧ NeverAfter (· == .init m) (· == .early m) log
+
+instance (log : List Ev) : Decidable (HooksAtMostOnce log) := by
+  unfold HooksAtMostOnce; infer_instance
+
 /-- "a module reached through an attachment is fully initialised before its user sees it" -/
 def gotten : Ev → Option Name
   | .get _ _ d => some d
@@ -219,6 +239,7 @@ def judge (cfg : Cfg) (o : Obs) : List String :=
   let up := o.errors.isEmpty
   (if cleanB cfg o.ioDict && !(up && decide (∀ n ∈ names u, n ∈ o.modules) && decide (InitOrderOnce o.modules o.log))
      then ["init_order_once"] else []) ++
+  (if decide (HooksAtMostOnce o.log) then [] else ["init_at_most_once"]) ++
   (if decide (AttachedReady o.log) then [] else ["attached_ready"]) ++
   (if badAttachmentB cfg o.ioDict && up then ["bad_attachment_reported"] else []) ++
   (if decide (NoHalfStart o) then [] else ["no_half_start"]) ++
